@@ -7,19 +7,21 @@ Ev(name) == l <= Len(T) /\ T[l].e = name /\ l' = l + 1
 R == T[l]
 RECURSIVE SeqToBag(_)
 SeqToBag(s) == IF s = <<>> THEN EmptyBag ELSE SetToBag({<<s[1][1], s[1][2]>>}) (+) SeqToBag(Tail(s))
-TReset == Ev("Reset") /\ posted' = EmptyBag /\ wakes' = 0 /\ q' = <<>> /\ cap' = 0 /\ dropOldest' = FALSE /\ dropped' = 0 /\ wstate' = "none"
+TReset == Ev("Reset") /\ posted' = EmptyBag /\ wakes' = 0 /\ q' = <<>> /\ cap' = 0 /\ policy' = "refuse" /\ dropped' = 0 /\ blocked' = <<>> /\ wstate' = "none"
 TPost == Ev("Post") /\ Post(R.key, R.data, R.ret = 0)
 TWake == Ev("Wake") /\ Wake
 TWait == Ev("Wait") /\ Wait(SeqToBag(R.events), R.nwake, R.full)
-TQC == Ev("QCreate") /\ QCreate(R.cap, R.drop)
+TQC == Ev("QCreate") /\ QCreate(R.cap, R.policy)
 TEnq == Ev("Enq") /\ Enq(R.m, R.ok)
+TEnqB == Ev("EnqBlocked") /\ EnqBlocked(R.m)
+TEnqR == Ev("EnqResumed") /\ EnqResumed(R.m, R.ok)
 TDeq == Ev("Deq") /\ Deq(R.m, R.ok)
 TQS == Ev("QStats") /\ QStats(R.size, R.dropped)
 TWC == Ev("WCreate") /\ WCreate
 TWS == Ev("WStop") /\ WStop
 TWJ == Ev("WJoin") /\ WJoin(R.returned, R.ok, R.long)
 TWD == Ev("WDestroy") /\ WDestroy
-TraceNext == TReset \/ TPost \/ TWake \/ TWait \/ TQC \/ TEnq \/ TDeq \/ TQS \/ TWC \/ TWS \/ TWJ \/ TWD
+TraceNext == TEnqB \/ TEnqR \/ TReset \/ TPost \/ TWake \/ TWait \/ TQC \/ TEnq \/ TDeq \/ TQS \/ TWC \/ TWS \/ TWJ \/ TWD
 TraceInit == Init /\ l = 1
 TraceSpec == TraceInit /\ [][TraceNext]_tvars
 ASSUME TLCSet(1, 0)
